@@ -30,7 +30,7 @@ for r in rows:
     lines.append('| %s | %s | %s | %s |' % (r[0], r[1], r[2], r[3].replace('|', '/')))
 lines += ['',
           'What is still missed (exit 0): `Value::eq` for a lazy iterable against a sequence (C07-5), `Map::as_const` skipping a non-constant key (C04-3), a keyword argument whose value is none treated as not given',
-          '(C03-7), raw-block / line-comment / `-}}` lexing with custom delimiters (C10-2, C10-3, C10-5) and `render_debug_info` (C14-2, C14-6): Kani does not get through `dyn Object` iteration, the `fmt` machinery or',
+          '(C03-7), raw-block and `-}}` lexing with custom delimiters (C10-2, C10-3) and `render_debug_info` (C14-2, C14-6): Kani does not get through `dyn Object` iteration, the `fmt` machinery or',
           'the tokenizer loops inside the caps, and these are not control-flow or data-flow facts that the MIR checks of engine M express without naming the very expression that was changed.  Inconclusive (exit 2): the',
           'three harnesses that time out on the changed code and C20-7, where the changed `LoaderStore::clear` leaves the grammar engine L translates.',
           'Rounds 6 and 7 (independent sub-agents, 24 changes) were first run against the checks as they stood - of the 12 changes of round 7 only C15-4 and C20-5 were caught at that point - and the checks were then extended where a missed change pointed at a fact that a',
